@@ -112,6 +112,12 @@ def instances(tier, seed):
             st = fam.with_horizon(model(), fam.HORIZONS[2])
             st.initial = list(st.initial) + [(X(0), 1 + t)]
             add(spec=st, cfg=Cfg('MS', N=2, M=1, intg='rk', grid=fam.G_UNI), args=['T'], results=['x', 'T'], expr_guess_of='T')
+        if rep == 0:
+            # the horizon is a PARAMETER that is an argument, on grids with localized time variables: imperative set_value(pT, v) after the
+            # transcription and the Function both start the local time variables from the grid implied by v
+            for g in (fam.G_UNI_LT0, fam.G_UNI_LT, fam.G_FREE, fam.G_UNI_LTT):
+                for method, intg in (('MS', 'rk'), ('DC', None)):
+                    add(spec=fam.with_horizon(model(), fam.HORIZONS[5]), cfg=Cfg(method, N=2, M=1, intg=intg or 'rk', grid=g, degree=2, scheme='radau'), args=['p:pT', 'p:a'], results=['x'])
         for args, ress in ((['zstr'], ['x']), (['x', 'zstr'], ['x', 'u'])):
             add(spec=model(dae='vec'), cfg=Cfg('DC', N=[2, 3][n % 2], M=[1, 2][n % 2], grid=fam.G_UNI, degree=[3, 2][n % 2], scheme='radau'), args=args, results=ress)
             n += 1
